@@ -124,7 +124,9 @@ def run(ctx, R):
     from . import C12
     R12 = Report("C12", ctx.tier, 0)
     C12.run(ctx, R12)
-    bad12 = [v for v in R12.violations if v["rule"] in ("r1", "r2", "engine")]
+    # r4 of C12 = the variable's recorded type is the greatest common subtype of its uses (C11 r5 / C17): a type recorded too wide
+    # admits argument values one of the uses cannot handle
+    bad12 = [v for v in R12.violations if v["rule"] in ("r1", "r2", "r4", "engine")]
     R.check(not bad12, "r2", "G-ARGS-TABLE", "-",
             "argument validation admits values outside the variable's type (C12 %s): the comparison and conversion code that runs later has no "
             "arm for such operand pairs (e.g. Float64 vs Int64 reaches unreachable!()) - %s"
